@@ -1173,7 +1173,10 @@ def cases_C18(ctx):
     gn = {g["key"]: g for g in ctx.t["gnssmap"]}
     names = [f["name"] for f in ctx.t["fields"]]
     for e, r, mode, sats, sigs, cells in msm_cases(ctx, ctx.n(49 * 4, 49 * 30)):
-        g = gn[int(e["key"][:3])]
+        g = dict(gn[int(e["key"][:3])])
+        # the expected constellation name and epoch field come from the pinned table, not from the
+        # library's own GNSSMAP (which is what is being checked)
+        pin = pinned.MSM_EPOCH.get(int(e["key"][:3]))
         satf, cellf = [], []
         for it in e["items"]:
             if it[0] == "group" and it[1][0] == "attr":
@@ -1183,8 +1186,9 @@ def cases_C18(ctx):
                         (satf if cn == "NSat" else cellf).append(names[b[1]])
         lab = rng.choice([1, 2])
         cs.append(case("helpers %d %s" % (lab, hx(r["payload"])), "msm:%s:%s" % (e["key"], mode),
-                       ("helpers", {"ltok": str(lab), "payload": hx(r["payload"]), "msm_impl": True, "epoch": names[g["epoch"]],
-                                    "gnss": g["name"], "satfields": satf, "cellfields": cellf})))
+                       ("helpers", {"ltok": str(lab), "payload": hx(r["payload"]), "msm_impl": True,
+                                    "epoch": pin[1] if pin else names[g["epoch"]],
+                                    "gnss": pin[0] if pin else g["name"], "satfields": satf, "cellfields": cellf})))
     e201 = [e for tn, e in ctx.entries if e["key"] == "4076_201"]
     for _ in range(ctx.n(80, 800)):
         if not e201:
